@@ -27,6 +27,10 @@ const (
 	rTagsExact        // 1 if every new generation of the routine gets a fresh tag (plain RoutineContainer)
 	rCallsDone        // controller calls that have returned
 	rExitCbs          // exit-callback invocations
+	rRetNil           // instances that returned nil
+	rRetErr           // instances that returned errRoutine
+	rCbNil            // exit-callback invocations told nil
+	rCbErr            // exit-callback invocations told errRoutine
 	rTag0      = 20   // +id: routine tag of instance id
 	rLeft0     = 60   // +id: instance id has returned
 	rClosed0   = 100  // +k: the channel returned by controller call k has closed
@@ -96,6 +100,12 @@ func instance(ctx context.Context, tag, outcome int, state int) error {
 	}
 	vsched.CtrAdd(rActive, -1)
 	vsched.CtrSet(rLeft0+id, 1)
+	switch err {
+	case nil:
+		vsched.CtrAdd(rRetNil, 1)
+	case errRoutine:
+		vsched.CtrAdd(rRetErr, 1)
+	}
 	vsched.Observe(oExit, int64(id), int64(tag), 0)
 	return err
 }
@@ -297,7 +307,20 @@ func spuriousCancelOracle() {
 
 // exitObs: every container under test has an exit callback (it runs after the lock is dropped).
 func exitObs() routine.Option {
-	return routine.WithExitCb(func(err error) { vsched.Observe(oCb, 3, errCode(err), 0) })
+	return routine.WithExitCb(func(err error) {
+		vsched.Observe(oCb, 3, errCode(err), 0)
+		// an exit is reported with the error that instance returned, at most once per callback
+		switch err {
+		case nil:
+			if n, m := vsched.CtrAdd(rCbNil, 1), vsched.Ctr(rRetNil); n > m {
+				fail("C14.exit-callback", "the exit callback was told nil (success) %d time(s) but only %d instance(s) returned nil", n, m)
+			}
+		case errRoutine:
+			if n, m := vsched.CtrAdd(rCbErr, 1), vsched.Ctr(rRetErr); n > m {
+				fail("C14.exit-callback", "the exit callback was told the routine's error %d time(s) but only %d instance(s) returned it", n, m)
+			}
+		}
+	})
 }
 
 func newRC(outcomes []int, opts ...routine.Option) *rcOps {
@@ -792,6 +815,60 @@ func init() {
 			}
 			finalRoutineOracle(o, false)
 			o.clear()
+			vsched.Settle()
+		},
+	})
+	eng.Register(&eng.Scenario{
+		Name: "routine-waitexited-restart", Props: []string{"C14"}, ObsNames: stdObs, Manual: true, RacePB: 2,
+		Doc:   "RoutineContainer / StateRoutineContainer (choice) whose instance has failed with E: a caller enters WaitExited while another thread restarts the routine (RestartRoutine or SetContext(fresh,true), choice; the new instance runs until cancelled): WaitExited returns E (it saw the failed instance) or keeps waiting for the new instance - never nil, never anything else",
+		Quick: eng.Bounds{PB: 2}, Thorough: eng.Bounds{PB: 4},
+		Body: func() {
+			state := vsched.Choose(2) == 1
+			how := vsched.Choose(2)
+			body := func(ctx context.Context) error {
+				out := iUntilCancelled
+				if vsched.Ctr(rEntered) == 0 {
+					out = iReturnErr
+				}
+				return instance(ctx, 1, out, 0)
+			}
+			var waitExited func(ctx context.Context, returnIfNotRunning bool, errCh <-chan error) error
+			var clear, restart func() bool
+			var setContext func(ctx context.Context, restart bool) bool
+			c := context.WithValue(context.Background(), ctxKey{}, 1)
+			if state {
+				k := routine.NewStateRoutineContainer[int](nil, exitObs())
+				k.SetStateRoutine(func(ctx context.Context, st int) error { return body(ctx) })
+				k.SetContext(c, false)
+				k.SetState(1)
+				waitExited, clear, restart, setContext = k.WaitExited, k.ClearContext, k.RestartRoutine, k.SetContext
+			} else {
+				k := routine.NewRoutineContainer(exitObs())
+				k.SetRoutine(body)
+				k.SetContext(c, false)
+				waitExited, clear, restart, setContext = k.WaitExited, k.ClearContext, k.RestartRoutine, k.SetContext
+			}
+			vsched.Settle() // the first instance has failed
+			wctx, wcancel := context.WithCancel(context.Background())
+			T("W", func() {
+				label("WaitExited")
+				err := waitExited(wctx, false, nil)
+				label("")
+				if err == errRoutine || (err == context.Canceled && wctx.Err() != nil) {
+					return
+				}
+				fail("C14.waitexited", "the instance failed with E and was then restarted (the new instance is running): WaitExited returned %v", err)
+			})
+			T("R", func() {
+				if how == 0 {
+					restart()
+				} else {
+					setContext(context.WithValue(context.Background(), ctxKey{}, 2), true)
+				}
+			})
+			vsched.Settle()
+			clear()
+			wcancel()
 			vsched.Settle()
 		},
 	})
